@@ -108,6 +108,9 @@ func (a *A) include(prop string, rules map[string]func(key string) bool) {
 	n := 0
 	for _, o := range b.Obs {
 		keep, named := rules[o.Rule]
+		if rules == nil && !strings.HasSuffix(o.Rule, "-R0") && strings.HasPrefix(o.Rule, prop+"-") {
+			named = true // the whole property
+		}
 		if named && (o.Status == "holds" || o.Status == "violated") {
 			n++ // vacuity is judged before the key filter: a violated sibling instance is not "nothing decided"
 		}
@@ -131,6 +134,9 @@ func (a *A) include(prop string, rules map[string]func(key string) bool) {
 		ids = append(ids, r)
 	}
 	sort.Strings(ids)
+	if rules == nil {
+		ids = []string{"all rules of " + prop}
+	}
 	a.Notes = append(a.Notes, fmt.Sprintf("includes %s (necessary conditions decided by the rules of %s, quick tier)", strings.Join(ids, ", "), prop))
 }
 
